@@ -114,15 +114,17 @@ def judge_trace(ctx, trace, source, kd, classify=True):
     v = lib.judge(ctx, MODULE_T, cfg, trace, max_events=25000)
     v["violations"] = sorted(set(v["violations"]))
     ctx.stage("judge", source=source, events=v["events"], violations=len(v["violations"]), deviations=len(v["deviations"]), wall_s=v["wall_s"])
-    if v["violations"] and "family=cdn" in source:
+    if v["violations"] and source.endswith(("family=cdn", "replay")):
         # real clock: "download() was not back after the driver's patience" cannot be told from a starved
         # machine; an unexpected one is inconclusive (exit 2), never a VIOLATION (DESIGN 3.6)
         lines = lib.read_lines(trace)
         for ln in v["violations"]:
             e = json.loads(lines[ln - 1])
             if e.get("op") == "ret" and e["res"].get("kind") == "waiting":
-                raise lib.ToolError(f"inconclusive: CdnClient::download did not return within the driver's wall-clock patience (trace line {ln}); "
-                                    "a hang cannot be told from a starved machine on the real clock")
+                s0, _ = lib.run_of_line(lines, ln)
+                if json.loads(lines[s0]).get("clock") == "real":
+                    raise lib.ToolError(f"inconclusive: CdnClient::download did not return within the driver's wall-clock patience (trace line {ln}); "
+                                        "a hang cannot be told from a starved machine on the real clock")
     if classify:
         lib.classify_trace(ctx, v, trace, source, program_of=program_of)
     return v
